@@ -10,11 +10,12 @@
      * the C15 solver  PV.TypeVar.Model.mresolve  (= the model regenerated from
        typevar.py), once per type variable of the signature.
 
-   Annotations: a type of the value fragment, a type variable T_k, list[T_k],
-   dict[T_k, T_j], Callable[[T_k], r] with r a type / a type variable / absent,
-   or no annotation.  Argument values: an opaque static value (a literal's
-   KnownValue, a class type, a union ...), list[v], dict[k, v], a callable
-   (p) -> r.  Bound generation through these forms mirrors
+   Annotations: a type expression nested to any depth over closed types of the
+   value fragment, type variables T_k, list[.], dict[., .], tuple[., ...],
+   tuple[., .] and Optional[.]; or Callable[[T_k], r] with r a type / a type
+   variable / absent; or no annotation.  Argument values: an opaque static value
+   (a literal's KnownValue, a class type, a union ...), list / dict / tuple values
+   nested to any depth, a callable (p) -> r.  Bound generation through these forms mirrors
    TypeVarValue.can_assign (lower bound), GenericValue.can_assign (element-wise)
    and Signature.can_assign / TypeVarValue.can_be_assigned (a callback's
    parameter type is an UPPER bound, its return type a lower bound).
@@ -23,12 +24,14 @@
    star_kwargs)`) are ONE lower bound for a parameter annotated T_k: their
    union (pyanalyze turns the tuple / dict of collected arguments into
    tuple[union, ...] / dict[str, union] first; when nothing was collected the
-   element type is Any, so an unused `*args: T` contributes the lower bound Any
-   and T is solved to Any unless another argument gives a lower bound).  A default contributes its
+   element type is Any[unreachable], which — in the repaired code — contributes
+   no lower bound; before the repair it made T Any: C06_unused_star_args_refuted_before_fix).  A default contributes its
    lower bound when it fits the declaration and nothing otherwise, and is never
    reported.
 
-   Shape assumption made by the generators only: a structured argument
+   Shape assumptions made by the generators only: a union-typed argument is not passed for
+   an Optional[..] parameter (pyanalyze splits it member by member; values are opaque here);
+   a structured argument
    (list / dict / callable) is passed for a parameter with the matching
    structured annotation, for an unannotated parameter, or not at all. *)
 From Coq Require Import List Bool Arith NArith.
@@ -40,20 +43,29 @@ Section CallModel.
   Context {V : Type} (O : ops V) (limit : nat).
 
   Inductive aval : Type :=
-  | AV (v : V)
-  | AList (e : V)
-  | ADict (k v : V)
-  | AFun (p r : V).
+  | AV (v : V)                   (* opaque static value: a literal's KnownValue, a class type, a union ... *)
+  | AList (e : aval)             (* list[e] *)
+  | ADict (k v : aval)           (* dict[k, v] *)
+  | ATupleVar (e : aval)         (* tuple[e, ...] *)
+  | ATuple2 (a b : aval)         (* tuple[a, b] *)
+  | AFun (p r : V).              (* a callable (p) -> r *)
 
   Inductive rann : Type := RNone | RTy (t : V) | RVar (j : nat).
 
+  (* type expressions of annotations, nested to any depth *)
+  Inductive texp : Type :=
+  | TTy (t : V)                  (* a closed type of the value fragment *)
+  | TVarE (k : nat)              (* the type variable T_k *)
+  | TList (e : texp)
+  | TDict (k v : texp)
+  | TTupleVar (e : texp)
+  | TTuple2 (a b : texp)
+  | TOpt (e : texp).             (* Optional[e] = e | None *)
+
   Inductive annot : Type :=
   | AnnNone
-  | AnnTy (t : V)
-  | AnnVar (k : nat)
-  | AnnList (k : nat)
-  | AnnDict (k j : nat)
-  | AnnFun (k : nat) (r : rann).
+  | AnnE (e : texp)
+  | AnnFun (k : nat) (r : rann). (* Callable[[T_k], r] *)
 
   Record cparam : Type := mk_cparam {
     cp : param;                 (* name, kind, has-default flag: what the binder sees *)
@@ -135,6 +147,12 @@ Section CallModel.
     let bs := arg_bounds (decl_of s k) v in
     if is_err (mresolve O limit bs) then None else Some (tag k bs).
 
+  (* TypeVarValue.can_assign(Any[unreachable]) — the element type of an empty collection:
+     only the inherent bounds (repo_fixes/C06-empty-collection-lower-bound) *)
+  Definition inherent_gen (s : csig) (k : nat) : option (list tagged) :=
+    let bs := inherent (decl_of s k) in
+    if is_err (mresolve O limit bs) then None else Some (tag k bs).
+
   (* TypeVarValue.can_be_assigned(v): UpperBound(v) + inherent bounds *)
   Definition upper_gen (s : csig) (k : nat) (v : V) : option (list tagged) :=
     let bs := UpperBound v :: inherent (decl_of s k) in
@@ -158,22 +176,40 @@ Section CallModel.
     | v :: r => Some (fold_left (unite O) r v)
     end.
 
+  (* the literal None, for Optional[..] *)
+  Context (none_v : V).
+
+  (* bounds generated by `e.can_assign(x)`; None = CanAssignError *)
+  Fixpoint gen_e (s : csig) (e : texp) (x : aval) : option (list tagged) :=
+    match e, x with
+    | TTy t, AV v => if acc O t v then Some [] else None
+    | TVarE k, AV v => lower_gen s k v
+    | TList e1, AList x1 => gen_e s e1 x1
+    | TDict ek ev, ADict xk xv => both (gen_e s ek xk) (gen_e s ev xv)
+    | TTupleVar e1, ATupleVar x1 => gen_e s e1 x1
+    | TTuple2 ea eb, ATuple2 xa xb => both (gen_e s ea xa) (gen_e s eb xb)
+    | TOpt e1, AV v =>
+        (* (e1 | None).can_assign(v): when None accepts v the alternatives are intersected and the
+           type variables of e1 are dropped (intersect_bounds_maps keeps only those present in all) *)
+        if acc O none_v v then Some [] else gen_e s e1 x
+    | TOpt e1, _ => gen_e s e1 x
+    | _, _ => None
+    end.
+
   (* the bounds one bound argument contributes; None = the argument alone is rejected *)
   Definition gen_bounds (s : csig) (a : annot) (vs : list aval) : option (list tagged) :=
     match a with
-    | AnnNone | AnnTy _ => Some []
-    | AnnVar k =>
+    | AnnNone => Some []
+    | AnnE (TVarE k) =>
+        (* several values bound to a parameter annotated T_k are one lower bound: their union *)
         match av_values vs with
         | None => None
         | Some l => match unite_all l with
-                    | None => lower_gen s k (any_generic O)   (* an empty *args / **kwargs: its element type is Any *)
+                    | None => inherent_gen s k   (* an empty *args / **kwargs says nothing about T_k (repaired code) *)
                     | Some u => lower_gen s k u
                     end
         end
-    | AnnList k => all_gen (fun x => match x with AList e => lower_gen s k e | _ => None end) vs
-    | AnnDict k j => all_gen (fun x => match x with
-                                       | ADict kk vv => both (lower_gen s k kk) (lower_gen s j vv)
-                                       | _ => None end) vs
+    | AnnE e => all_gen (gen_e s e) vs
     | AnnFun k r => all_gen (fun x => match x with
                                       | AFun p q =>
                                           both (upper_gen s k p)
@@ -185,8 +221,16 @@ Section CallModel.
                                       | _ => None end) vs
     end.
 
+  Fixpoint tv_in (e : texp) : bool :=
+    match e with
+    | TTy _ => false
+    | TVarE _ => true
+    | TList e1 | TTupleVar e1 | TOpt e1 => tv_in e1
+    | TDict a b | TTuple2 a b => tv_in a || tv_in b
+    end.
+
   Definition has_tv (a : annot) : bool :=
-    match a with AnnNone | AnnTy _ => false | _ => true end.
+    match a with AnnNone => false | AnnE e => tv_in e | AnnFun _ _ => true end.
 
   Inductive diag : Type :=
   | IncompatibleCall
@@ -235,13 +279,23 @@ Section CallModel.
     match solved l k with Sol v => v | Err => any_inference O end.
 
   (* second pass: every bound argument against the substituted annotation *)
+  Fixpoint fits_e (sol : nat -> V) (e : texp) (x : aval) : bool :=
+    match e, x with
+    | TTy t, AV v => acc O t v
+    | TVarE k, AV v => acc O (sol k) v
+    | TList e1, AList x1 => fits_e sol e1 x1
+    | TDict ek ev, ADict xk xv => fits_e sol ek xk && fits_e sol ev xv
+    | TTupleVar e1, ATupleVar x1 => fits_e sol e1 x1
+    | TTuple2 ea eb, ATuple2 xa xb => fits_e sol ea xa && fits_e sol eb xb
+    | TOpt e1, AV v => acc O none_v v || fits_e sol e1 x
+    | TOpt e1, _ => fits_e sol e1 x
+    | _, _ => false
+    end.
+
   Definition fits1 (sol : nat -> V) (a : annot) (x : aval) : bool :=
     match a, x with
     | AnnNone, _ => true
-    | AnnTy t, AV v => acc O t v
-    | AnnVar k, AV v => acc O (sol k) v
-    | AnnList k, AList e => acc O (sol k) e
-    | AnnDict k j, ADict kk vv => acc O (sol k) kk && acc O (sol j) vv
+    | AnnE e, _ => fits_e sol e x
     | AnnFun k r, AFun p q =>
         acc O p (sol k) &&                  (* parameters are contravariant *)
         match r with RNone => true | RTy t => acc O t q | RVar j => acc O (sol j) q end
@@ -289,10 +343,16 @@ Arguments RNone {V}.
 Arguments RTy {V}.
 Arguments RVar {V}.
 Arguments AnnNone {V}.
-Arguments AnnTy {V}.
-Arguments AnnVar {V}.
-Arguments AnnList {V}.
-Arguments AnnDict {V}.
+Arguments AnnE {V}.
 Arguments AnnFun {V}.
+Arguments TTy {V}.
+Arguments TVarE {V}.
+Arguments TList {V}.
+Arguments TDict {V}.
+Arguments TTupleVar {V}.
+Arguments TTuple2 {V}.
+Arguments TOpt {V}.
+Arguments ATupleVar {V}.
+Arguments ATuple2 {V}.
 Arguments BVals {V}.
 Arguments BDefault {V}.
